@@ -8,7 +8,8 @@ What is mirrored (the code that exists, with the repairs fixes/C18-*.patch appli
   decoder both group by the key `int(1e4 * onset)` (truncation toward zero, `encKey`; the decoder
   since repair C18-10 — before it grouped the raw onsets and disagreed with the encoder for onsets
   less than 1e-4 beat apart).
-* `get_unique_seq`: group means + `last_time` (`max(offsets)`, or `max(onsets) + 1` when equal).
+* `get_unique_seq`: group means + `last_time` (`max(offsets)`, or `max(onsets) + 1` when the two are
+  `np.isclose`, repair C18-11).
 * `monotonize_times`: keep the first point and every point strictly above the running maximum
   (`monoKnots`), interpolate linearly through the kept points (scipy `interp1d` linear with
   extrapolation: knots sorted stably by `x` (`sortKnots`), segment found by `searchsorted` left clipped
@@ -127,13 +128,22 @@ def cumFrom (e : Rat) : List Rat → List Rat
   | [] => [e]
   | d :: ds => e :: cumFrom (e + d) ds
 
-/-- `get_unique_seq`: `last_time` -/
+def absR (x : Rat) : Rat := if x < 0 then -x else x
+
+/-- `np.isclose(a, b)` with numpy's default tolerances: `|a - b| <= 1e-8 + 1e-5 * |b|` -/
+def isClose (a b : Rat) : Bool := decide (absR (a - b) ≤ 1 / 100000000 + 1 / 100000 * absR b)
+
+/-- `get_unique_seq`: `last_time`.  The latest offset, or one beat after the latest onset when no note
+    sounds past that onset (it carries only notes without duration, grace notes).  "Past" is judged
+    with `np.isclose` since repair C18-11: the offsets are sums of single-precision onsets and
+    durations, and an offset that reaches the last onset in the score may exceed it by a rounding
+    error (14.333333 + 0.6666667 against 15.0), which made the last score interval 4e-7 beat. -/
 def lastTime (ons offs : List Rat) : Option Rat :=
   match ons, offs with
   | o :: os, f :: fs =>
     let mo := maxL o os
     let mf := maxL f fs
-    some (if mo = mf then mo + 1 else mf)
+    some (if isClose mo mf then mo + 1 else mf)
   | _, _ => none
 
 -- ------------------------------------------------------------------ interpolation
